@@ -250,7 +250,14 @@ def run_given(col, strategy, fn, n, seed, tier, sub, shrink=True):
                     if case_hash(case) not in state["failing"]:
                         return
             try:
-                res = fn(case)
+                try:
+                    res = fn(case)
+                except (Violation, HarnessError, hypothesis.errors.HypothesisException):
+                    raise
+                except Exception as exc:
+                    # an unexpected exception out of repository code is a finding (crash), not a harness error;
+                    # crash_violation raises HarnessError when no repository frame is involved
+                    raise crash_violation(exc, case, "crash") from exc
             except Violation as v:
                 if col.handle(v, case):
                     col.record(case, False, ("after-known-finding",), sub)
@@ -307,7 +314,12 @@ def ddmin_case(lf, fn, max_calls):
     def fails(c):
         calls[0] += 1
         try:
-            fn(c)
+            try:
+                fn(c)
+            except (Violation, HarnessError):
+                raise
+            except Exception as exc:
+                raise crash_violation(exc, c, "crash") from exc
         except Violation as v:
             if v.signature == lf["signature"]:
                 return {"signature": v.signature, "message": v.message, "case": json.loads(canon(c))}
